@@ -6,6 +6,10 @@ the ThreadInitCallback saw it).  Model side: lean/Driver/PoolDrv.lean (`drv_pool
 
 API used by vlib/props/c05.py:
     run_pool(ctx, flavour, ncases_calls=None)   generated cases; ncases_calls = (number of cases, getNextLoop calls per case)
+    run_spin(ctx, flavour, jobs=None)           long runs (`spin <k>`: k getNextLoop calls in-process, digest only) around the
+                                                2^31 / 2^32 boundaries of the cursor; implementation + oracle only (the
+                                                model driver does not simulate them: theorem C05.pool_round_robin is the
+                                                statement for all call counts, the oracle uses its closed form)
     replay_pool(ctx, lines, flavour)            the same treatment for given input lines (corpus / --replay, `engine=pool`)
     corpus_pool(ctx, flavour, prop_id="C05")    replay_pool on every corpus/<prop_id>/pool-*.case
 Failures go to ctx.oracle_failures as (case, kind, description) with kind in
@@ -21,6 +25,7 @@ from .runner import Case, ddmin
 ENGINE = "pool"
 MAX_THREADS = 64      # both drivers answer `bad-op` beyond
 MAX_BURST = 10000
+MAX_SPIN = 1 << 33
 U64 = 1 << 64
 
 
@@ -75,6 +80,13 @@ def oracle(lines, blocks):
             k = _num(w[1])
             kind, exp = "pool-roundrobin", [" ".join(["loops"] + [name(calls + i) for i in range(k)])]
             calls += k
+        elif w[0] == "spin" and len(w) == 2 and _num(w[1]) is not None and _num(w[1]) <= MAX_SPIN:
+            # k calls, digest only: closed form of strict round robin — call i (0-based since `start`) is worker i % n
+            k = _num(w[1])
+            kind = "pool-roundrobin"
+            exp = ["spun %d first %s last %s bad 0" % (k, name(calls) if k else "-", name(calls + k - 1) if k else "-")]
+            spin_from = calls
+            calls += k
         elif w[0] == "hash" and len(w) == 2 and _num(w[1]) is not None and _num(w[1]) < U64:
             kind, exp = "pool-hash", ["loop " + name(_num(w[1]))]
         elif w == ["all"]:
@@ -86,7 +98,13 @@ def oracle(lines, blocks):
                 s = " | ".join(ls)
                 return s if len(s) <= 160 else s[:157] + "..."
             where = ""
-            if kind == "pool-roundrobin" and obs and exp and obs[0].split()[:1] == exp[0].split()[:1]:
+            if w[0] == "spin":
+                t = obs[0].split() if obs else []
+                if "firstbad" in t and t.index("firstbad") + 5 < len(t):
+                    j = t.index("firstbad")
+                    where = " (call #%d since start: got %s, the successor of the previous result is %s; %s break(s) of the rotation in this run)" % (
+                        spin_from + int(t[j + 1]), t[j + 3], t[j + 5], t[t.index("bad") + 1])
+            elif kind == "pool-roundrobin" and obs and exp and obs[0].split()[:1] == exp[0].split()[:1]:
                 a, b = obs[0].split()[1:], exp[0].split()[1:]
                 d = next((i for i in range(max(len(a), len(b))) if i >= len(a) or i >= len(b) or a[i] != b[i]), None)
                 if d is not None:
@@ -167,22 +185,30 @@ def run_lines(ctx, exe, lines, origin):
     """one case through the implementation, the oracle, the model; reports into ctx. Returns the impl blocks."""
     ops = [l for l in lines if l.strip() and not l.startswith(("#", "<", "engine="))]
     case = Case(ENGINE, ops, origin)
-    impl, _err = ctx.run_impl(exe, case, timeout=300)
+    # `spin` is not an operation of the model driver (it would have to take 2^31.. steps): implementation + oracle only
+    has_spin = any(l.split()[:1] == ["spin"] for l in ops)
+    impl, _err = ctx.run_impl(exe, case, timeout=600 if has_spin else 300)
     fails = oracle(ops, impl)
     mismatch = None
-    if ctx.model_ok:
+    if has_spin:
+        ctx.count("pool:cases-without-model(spin)")
+    elif ctx.model_ok:
         model = ctx.run_model(case, impl, timeout=300)
         mismatch = ctx.compare(case, impl, model)
     for l in ops:
         w = l.split()
-        ctx.count("pool:" + (w[0] if w[0] in ("start", "next", "hash", "all") else "other"))
+        ctx.count("pool:" + (w[0] if w[0] in ("start", "next", "hash", "all", "spin") else "other"))
     for first, seg in _segments(ops):
         blocks = impl[first:first + len(seg)]
         last = ctx.observable(blocks[-1]) if blocks else ["?"]
         ctx.record(Case(ENGINE, seg, origin), blocks, nontrivial=True,
                    sample={"ops": seg[:8], "steps": len(seg), "last_observation": (last or ["?"])[0][:120]})
 
-    if fails:
+    if fails and has_spin:
+        # every re-run costs seconds to a minute: no delta debugging (run_spin's cases are two lines; it cuts the count
+        # down to the first break itself)
+        ctx.oracle_failures.append((case, fails[0][0], fails[0][1]))
+    elif fails:
         kind, desc = fails[0]
 
         def still(ls):
@@ -237,6 +263,57 @@ def run_pool(ctx, flavour="dbg", ncases_calls=None):
         run_lines(ctx, exe, gen_case(ctx.rng, n, c), "generated:%s:N=%d" % (flavour, n))
         if n not in ctx.extra["pool_sizes"]:
             ctx.extra["pool_sizes"].append(n)
+
+
+def spin_jobs():
+    """(pool size, number of calls): the two boundaries of a 32-bit cursor.  N = 7: 2^64 - 2^32 is not a multiple of 7,
+    so a cursor that goes INT_MAX -> INT_MIN and is reduced modulo N as a size_t breaks the rotation at call 2^31;
+    N = 3 divides 2^32 - 1 (no break at 2^31) but not 2^32: the rotation breaks where the 32-bit value wraps to 0."""
+    return [(7, (1 << 31) + 3 * 7), (3, (1 << 32) + 3 * 3)]
+
+
+def run_spin(ctx, flavour="dbg", jobs=None):
+    """`start N`, `spin K` on harness/pool_drv.cc built in `flavour`, the jobs side by side (one process each, about
+    4 ns per call at -O1, 20 ns under ASan+UBSan); oracle = closed form (first, last, no break).  A failing run is cut
+    down to the first break (`spin <firstbad + 1>`) when that reproduces.  Records what ran in ctx.extra["pool_spin"]."""
+    import time
+    from concurrent.futures import ThreadPoolExecutor
+    jobs = spin_jobs() if jobs is None else jobs
+    exe = ctx.exe("pool_drv", flavour)
+
+    def one(job):
+        n, k = job
+        t0 = time.time()
+        lines = ["start %d" % n, "spin %d" % k]
+        blocks, _ = ctx.run_impl(exe, Case(ENGINE, lines), timeout=900)
+        return lines, blocks, time.time() - t0
+    with ThreadPoolExecutor(max_workers=max(1, len(jobs))) as ex:
+        results = list(ex.map(one, jobs))
+    for (n, k), (lines, blocks, secs) in zip(jobs, results):
+        origin = "spin:%s:N=%d" % (flavour, n)
+        fails = oracle(lines, blocks)
+        obs = ctx.observable(blocks[1])[0] if len(blocks) > 1 and ctx.observable(blocks[1]) else (
+            blocks[-1][-1] if blocks and blocks[-1] else "?")
+        ctx.count("pool:start")
+        ctx.count("pool:spin")
+        ctx.count("pool:spin-calls", k)
+        ctx.record(Case(ENGINE, lines, origin), blocks, nontrivial=True,
+                   sample={"ops": lines, "steps": 2, "last_observation": obs[:120]})
+        ctx.extra.setdefault("pool_spin", []).append(
+            {"flavour": flavour, "pool_size": n, "calls": k, "seconds": round(secs, 1), "answer": obs[:160],
+             "oracle": fails[0][0] if fails else "accepts"})
+        if not fails or ctx.oracle_failures:
+            continue
+        kind, desc = fails[0]
+        t = obs.split()
+        if kind == "pool-roundrobin" and "firstbad" in t:
+            # the shortest run that shows it: up to and including the first call out of turn
+            short = ["start %d" % n, "spin %d" % (int(t[t.index("firstbad") + 1]) + 1)]
+            b2, _ = ctx.run_impl(exe, Case(ENGINE, short), timeout=900)
+            f2 = oracle(short, b2)
+            if f2 and f2[0][0] == kind:
+                lines, desc = short, f2[0][1]
+        ctx.oracle_failures.append((Case(ENGINE, lines, origin), kind, desc + " [flavour %s]" % flavour))
 
 
 def read_case_file(path):
